@@ -608,8 +608,57 @@ fn extra(s: &Scn) -> Option<Result<(), String>> {
         15 => fam_swap(), 16 => by_size!(fam_rawparts), 20 => if s.g("zst") == 1 { fam_lazyall::<0>() } else { by_size!(fam_lazyall) }, 21 => fam_heap(), 17 => fam_growth(), 18 => fam_stack(), 19 => by_size!(fam_get), _ => return None })
 }
 
+/// element type WITHOUT drop glue (u64): contents and lengths only, against Vec<u64>
+fn run_nodrop(s: &Scn) -> Result<(), String> {
+    let (len, cap) = (s.u("len"), s.u("cap"));
+    let mut v: AnyVec = AnyVec::with_capacity::<u64>(cap.max(len).min(1 << 21));
+    let mut m: Vec<u64> = (0..len as u64).map(|i| 1 + i).collect();
+    { let mut t = v.downcast_mut::<u64>().unwrap(); for x in m.iter() { t.push(*x); } }
+    let r = catch_unwind(AssertUnwindSafe(|| -> Result<(), String> {
+        match s.g("fam") {
+            1 => { let index = if s.g("push") == 1 { len } else { s.u("index") }; if index > len { return Ok(()); }
+                   m.insert(index, 5000);
+                   let w = AnyValueWrapper::new(5000u64); if s.g("push") == 1 { v.push(w) } else { v.insert(index, w) } }
+            2 => { if len == 0 { return Ok(()); }
+                   let index = if s.g("op") == 2 { len - 1 } else { s.u("index") }; if index >= len { return Ok(()); }
+                   let id = match s.g("op") { 0 => m.remove(index), 1 => m.swap_remove(index), _ => m.pop().unwrap() };
+                   let got = match s.g("op") { 0 => { let h = v.remove(index); let g = *h.downcast_ref::<u64>().unwrap(); if s.g("sink") == 2 { h.downcast::<u64>().unwrap() } else { drop(h); g } }
+                                               1 => { let h = v.swap_remove(index); let g = *h.downcast_ref::<u64>().unwrap(); if s.g("sink") == 2 { h.downcast::<u64>().unwrap() } else { drop(h); g } }
+                                               _ => { let h = v.pop().unwrap(); let g = *h.downcast_ref::<u64>().unwrap(); if s.g("sink") == 2 { h.downcast::<u64>().unwrap() } else { drop(h); g } } };
+                   if got != id { return Err(format!("removed value {} expected {}", got, id)); } }
+            3 | 4 => {
+                let (start, end, f, b, k) = (s.u("start"), s.u("end"), s.u("f"), s.u("b"), s.u("k"));
+                let repl: Vec<u64> = (0..k as u64).map(|i| 5000 + i).collect();
+                let mut yielded = vec![];
+                if s.g("fam") == 3 {
+                    let mut d = v.drain(start..end);
+                    for _ in 0..f { yielded.push(d.next().unwrap().downcast::<u64>().unwrap()); }
+                    for _ in 0..b { yielded.push(d.next_back().unwrap().downcast::<u64>().unwrap()); }
+                } else {
+                    let mut d = v.splice(start..end, repl.iter().map(|x| AnyValueWrapper::new(*x)));
+                    for _ in 0..f { yielded.push(d.next().unwrap().downcast::<u64>().unwrap()); }
+                    for _ in 0..b { yielded.push(d.next_back().unwrap().downcast::<u64>().unwrap()); }
+                }
+                let mut exp_y: Vec<u64> = m[start..start + f].to_vec();
+                exp_y.extend(m[end - b..end].iter().rev());
+                if exp_y != yielded { return Err(format!("yielded {:?} expected {:?}", yielded, exp_y)); }
+                m.splice(start..end, repl.iter().cloned());
+            }
+            5 => { v.clear(); m.clear(); }
+            _ => return Ok(()),
+        }
+        Ok(())
+    }));
+    match r { Err(_) => return Err("the operation panicked (element type without drop glue)".into()), Ok(Err(e)) => return Err(e + " (element type without drop glue)"), _ => {} }
+    let got: Vec<u64> = v.downcast_ref::<u64>().unwrap().as_slice().to_vec();
+    if v.len() != m.len() { return Err(format!("len {} expected {} (element type without drop glue: u64)", v.len(), m.len())); }
+    if got != m { return Err(format!("vector is {:?}, Vec gives {:?} (element type without drop glue: u64)", got, m)); }
+    Ok(())
+}
+
 fn dispatch(s: &Scn) -> Result<(), String> {
     if let Some(r) = extra(s) { return r; }
+    if s.m.get("nodrop").cloned().unwrap_or(0) == 1 { return run_nodrop(s); }
     if s.m.get("zst").cloned().unwrap_or(0) == 1 { return run::<0>(s); }
     match s.u("esz") { 1 => run::<1>(s), 2 => run::<2>(s), 3 => run::<3>(s), 12 => run::<12>(s), 16 => run::<16>(s),
                        24 => run::<24>(s), 160 => run::<160>(s), _ => run::<8>(s) }
